@@ -73,8 +73,13 @@ FONT_TOKENS = [('FONT-short', font_dcs(0, b'')), ('FONT-3bytes', font_dcs(0, b'\
                ('FONT-noslot', font_dcs(b'', PSF1_EMPTY)), ('FONT-plus', font_dcs(b'+83', PSF1_EMPTY)), ('FONT-plusonly', font_dcs(b'+', PSF1_EMPTY)), ('FONT-neg', font_dcs(b'-1', PSF1_EMPTY)),
                ('FONT-slot-max', font_dcs(18446744073709551615, PSF1_EMPTY)), ('FONT-slot-ovf', font_dcs(18446744073709551616, PSF1_EMPTY)), ('FONT-slot-0x', font_dcs(b'0084', PSF1_EMPTY)),
                ('FONT-nocolon', E + b'PCTerm:Font:12' + E + b'\\'), ('FONT-colons', font_dcs(b'85:', PSF1_EMPTY)), ('FONT-prefix-only', E + b'PCTerm:Font:' + E + b'\\'), ('FONT-case', E + b'PCterm:Font:1:NgQAEA==' + E + b'\\'),
-               ('FONT-slot0', font_dcs(0, PSF1_EMPTY))]
-FONTSEL_TOKENS = [('FONTSEL-%d' % n, E + b'[0;%d D' % n) for n in (77, 78, 79, 80, 81, 82, 83, 84, 85, 88, 89, 90, 91, 93, 95, 96, 42, 43)] + [('FONTSEL-max', E + b'[0;2147483647 D')]
+               ('FONT-slot0', font_dcs(0, PSF1_EMPTY)),
+               # fix fB: the loaders refuse a glyph size outside 1..=8 x 1..=32 and a PSF2 charsize != height: 'FONT-psf2' (charsize 0, height 16), 'FONT-psf1-h0', 'FONT-psf2-hdr' are errors now;
+               # a header-only PSF2 font that loads, and sizes around the bounds (slot 98 never gets a font: FONTSEL-98 must fail on both sides)
+               ('FONT-psf2-ok', font_dcs(97, psf2(0, 16, 16, 8))), ('FONT-psf2-32', font_dcs(97, psf2(1, 32, 32, 1, bytes(32)))), ('FONT-psf2-w0', font_dcs(98, psf2(0, 16, 16, 0))),
+               ('FONT-psf2-w9', font_dcs(98, psf2(0, 16, 16, 9))), ('FONT-psf2-h33', font_dcs(98, psf2(0, 33, 33, 8))), ('FONT-psf2-big', font_dcs(98, psf2(0, 0, 0xffffffff, 1 << 30))),
+               ('FONT-psf1-h33', font_dcs(98, b'\x36\x04\x00\x21'))]
+FONTSEL_TOKENS = [('FONTSEL-%d' % n, E + b'[0;%d D' % n) for n in (77, 78, 79, 80, 81, 82, 83, 84, 85, 88, 89, 90, 91, 93, 95, 96, 97, 98, 42, 43)] + [('FONTSEL-max', E + b'[0;2147483647 D')]
 RAW256 = font_dcs(66, bytes(range(7, 256)) + bytes(7))                       # an 8x1 raw font (344 base64 symbols)
 RAW4096 = font_dcs(67, bytes((i * 7 + i // 256) % 256 for i in range(4096)))    # an 8x16 raw font
 FONT_STREAMS = [(RAW256 + E + b'[0;66 D' + E + b'[0;67 D', 'font-raw256'), (RAW4096 + E + b'[0;67 D' + E + b'[0;66 D', 'font-raw4096'),
